@@ -540,6 +540,9 @@ func runScenario(steps []string) outcome {
 			if serveOut.panicMsg != "" {
 				return serveOut
 			}
+			if os.Getenv("C09_DEBUG") == "2" {
+				fmt.Fprintf(os.Stderr, "  session wrote: %s\n", fx.rs.Out.Bytes())
+			}
 			return finishCalls()
 		default:
 			return outcome{panicMsg: "harness: unknown step " + st}
